@@ -238,7 +238,7 @@ import c01_wide as W  # noqa: E402
 
 
 def gen_wide(rng, tier):
-    """universes of F1 + nillable + tokens + wrapper + sequence; instances as generated and with strings
+    """universes of F1 + nillable + tokens + wrapper + sequence + Attributes maps + init=False fields; instances as generated and with strings
     pushed into the excluded regions"""
     for desc, value in W.CORPUS:
         u = B.Universe(desc)
@@ -260,12 +260,12 @@ def gen_wide(rng, tier):
 
 def impl_valFN(a):
     """`ctxOK` / `valOK` of Bind/FN.lean against the independent description of the excluded regions"""
-    return {"ok": {"ctx": W.ctx_expected(a["ctx"], ns_agree_everywhere), "val": not W.regions(a["desc"], a["value"])}}
+    return {"ok": {"ctx": W.ctx_expected(a["ctx"], ns_agree_everywhere), "val": not W.regions(a["desc"], a["value"], a["ctx"])}}
 
 
 CORRS.append(
     Corr("c01.valFN", gen_wide, impl_valFN, classify=lambda a, o: json.dumps(o.get("ok"), sort_keys=True),
-         describe="hypotheses ctxOK/valOK of bind_generate_F2..F5 on exported real universes and instances vs the oracle's "
+         describe="hypotheses ctxOK/valOK of bind_generate_F2..F6 on exported real universes and instances vs the oracle's "
                   "description of the excluded regions")
 )
 
@@ -275,7 +275,7 @@ def covered_wide(a, msg):
         if not ns_agree_everywhere(a["ctx"]):
             return "C01-ns-chain"
         return "C01-nillable-token-lists-empty / C01-tokens-in-sequence-typeerror (excluded universes)"
-    r = W.regions(a["desc"], a["value"])
+    r = W.regions(a["desc"], a["value"], a["ctx"])
     return r[0] if r else None
 
 
